@@ -497,7 +497,7 @@ def strip_positions(tree, mixed=False):
     return tree
 
 
-AST_MODES = {"ast": lambda t: astx.parse_expr(t), "ast-no-positions": lambda t: strip_positions(astx.parse_expr(t)), "ast-mixed-positions": lambda t: strip_positions(astx.parse_expr(t), mixed=True)}
+AST_MODES = {"ast": lambda t: astx.parse_expr(t), "ast-module": lambda t: ast.parse(t.strip()), "ast-no-positions": lambda t: strip_positions(astx.parse_expr(t)), "ast-mixed-positions": lambda t: strip_positions(astx.parse_expr(t), mixed=True)}
 
 LAYOUT_TEXTS = [
     "lambda e: {'pt  (GeV)': e.x,\n           'eta\tphi': e.y}",
@@ -587,6 +587,54 @@ def earlier_queries(ctx, ds):
     ctx.count("history:earlier-queries-on-typed-items", 7)
 
 
+def supplied_object_lives_on(ctx, ds):
+    """history: the AST object the caller supplied goes on living - it is given to streams that DO know their types (their declared
+    defaults are filled in), to other operators, and the caller edits it. The lambda the untyped stream emitted stays what was supplied"""
+    from typing import Iterable
+
+    from func_adl import ObjectStream
+
+    class Jet:
+        def pt(self, scale: float = 2.5) -> float: ...
+
+    class Event:
+        def jets(self, collection: str = "AntiKt4") -> Iterable[Jet]: ...
+
+        def met(self, kind: str = "final") -> float: ...
+
+    typed = ObjectStream[Event](ast.Name(id="ds_typed", ctx=ast.Load()), Event)
+    texts = ["lambda e: e.jets().first", "lambda e: e.met()", "lambda e: e.jets().Select(lambda j: j.pt())", "lambda e: (e.met(), e.jets())", "lambda e: e.jets()", "lambda e: {'m': e.met()}.m"]
+    for text in texts:
+        want = astx.parse_expr(text)
+        for mode, make in AST_MODES.items():
+            for opname in ("Select", "SelectMany"):
+                try:
+                    obj = make(text)
+                    first = getattr(ds, opname)(obj)
+                except Exception as e:
+                    ctx.count("later-life:first-call-raised:" + type(e).__name__)
+                    continue
+                for later, act in (
+                    ("typed Select", lambda: typed.Select(obj)),
+                    ("typed SelectMany", lambda: typed.SelectMany(obj)),
+                    ("typed Where", lambda: typed.Where(obj)),
+                    ("untyped again", lambda: ds.Select(obj)),
+                    ("caller edits the object", lambda: [setattr(n, "attr", n.attr + "_edited") for n in ast.walk(obj) if isinstance(n, ast.Attribute)]),
+                ):
+                    try:
+                        act()
+                    except ValueError:
+                        pass
+                    except Exception as e:
+                        ctx.count("later-life:later-step-raised:" + type(e).__name__)
+                    ctx.case(f"later-life|{opname}|{mode}|{later}|{text}", nontrivial=True)
+                    ctx.count("history:supplied-object-lives-on")
+                    out = first.query_ast.args[1]
+                    if not astx.struct_eq(out, want):
+                        ctx.violation("changed-later:supplied-object-used-again", f"{opname}({mode}) on an untyped stream emitted {text}; after '{later}' with the same supplied object it holds {astx.unparse(out)[:160]}", {"later_life": True})
+                        break
+
+
 def shard_main(ctx):
     from func_adl import EventDataset
 
@@ -610,6 +658,8 @@ def shard_main(ctx):
         must_refuse(ctx, ds)
         parameter_lists(ctx, ds)
         layout_texts(ctx, ds)
+    if ctx.shard == 1 % ctx.nshards:
+        supplied_object_lives_on(ctx, ds)
     l1 = level1()
     todo = [(t, tag, 1) for t, tag in l1]
     todo += [(t, tag, 2) for t, tag in level2(l1)]
@@ -639,7 +689,7 @@ def shard_main(ctx):
             ctx.count("expressions-on-other-untyped-streams")
         for opname in ("Select", "SelectMany", "Where"):
             judge(ctx, ds, opname, "string", text, tag, depth, lambda: getattr(ds, opname)(text))
-            amode = ("ast", "ast", "ast-no-positions", "ast-mixed-positions")[n % 4]
+            amode = ("ast", "ast-module", "ast-no-positions", "ast-mixed-positions")[n % 4]
             judge(ctx, ds, opname, amode, text, tag, depth, lambda: getattr(ds, opname)(AST_MODES[amode](text)))
         if n % (40 if ctx.tier == "quick" else 12) == 0:
             callable_batch.append((t, tag, depth))
@@ -678,6 +728,9 @@ def replay(ctx, witness):
             return a
 
     ds = DS()
+    if witness.get("later_life"):
+        supplied_object_lives_on(ctx, ds)
+        return
     if "must_refuse" in witness:
         must_refuse(ctx, ds)
         return
